@@ -1,6 +1,7 @@
 mod comps;
 mod drive;
 mod h;
+mod handles;
 mod json;
 mod nest;
 mod queries;
@@ -46,6 +47,11 @@ fn main() {
             let input: String = arg(&args, "--in", String::new());
             let (n, p) = nest::run(&input, &mut hh.out, args.iter().any(|a| a == "--ar-empty"));
             eprintln!("scripts={} unwound={}", n, p);
+        }
+        "handles" => {
+            let input: String = arg(&args, "--in", String::new());
+            let n = handles::run(&input, &mut hh.out);
+            eprintln!("handles={}", n);
         }
         "boundary" => {
             hh.decl();
